@@ -122,6 +122,8 @@ func runFrameDispatchCheck(c *Ctx, r *Rep) {
 	}
 	p := c.MustPkg("vm")
 	info := p.TypesInfo
+	// statement calls of helpers written since the reference stand for the helpers' statements
+	fd = &ast.FuncDecl{Name: fd.Name, Type: fd.Type, Body: c.FlattenNew(p, fd)}
 	// find `err = jumpTable[opcode](…)` followed by `if err != nil { … }` whose body sets vm.curexc / calls SetException on both arms
 	found := false
 	ast.Inspect(fd.Body, func(n ast.Node) bool {
